@@ -249,6 +249,9 @@ Definition classify (cs : case) : N :=
                end
            end
   | CServe c now_ns ep w o_status o_loc o_carried =>
+      (* +50: some parameter is presented with two different values (query vs body, or duplicated) *)
+      (if existsb (fun k => match presented w k with a :: r => existsb (fun b => negb (str_eqb a b)) r | [] => false end)
+                  [k_redirect_uri; k_sig; k_ts; k_state; k_client_id; k_code; k_error] then 50 else 0) +
       100 + 10 * ep_num ep +
       match o_carried, o_loc with
       | Some _, _ => 5
